@@ -1517,4 +1517,19 @@ theorem poly_object_relabel_energy_of_labels (x : Label → Rat) (m : List (Labe
     polyEnergy x (relabelStep m s) = polyEnergy (fun v => x (mapLabel m v)) s :=
   relabelStep_energy x m s hs (relabelOK_of_labels m s hinj hfresh) (relabel_inj_on_terms m s hs hinj)
 
+/-- **end of the chain for `relabel_variables`**: whenever the in-place relabelling of a well-formed object succeeds (mapping accepted
+    by `iter_safe_relabels`, no label conflict), the object afterwards has, at every assignment `x` of the new labels, the energy the
+    polynomial had before at `x ∘ mapping` — no hypothesis left but the success of the call -/
+theorem poly_object_relabel_succeeds_energy (x : Label → Rat) (m : List (Label × Label)) (s s' : PolyState) (hs : TermsOK s)
+    (h : applyOp s (.relabel m) = .ok s') :
+    polyEnergy x s' = polyEnergy (fun v => x (mapLabel m v)) s := by
+  simp only [applyOp] at h
+  split at h
+  · rename_i sub hsub
+    simp only [Except.ok.injEq] at h
+    obtain ⟨hsubm, hinj, hfresh⟩ := safeRelabel_ok_conditions m sub s hsub
+    subst hsubm; subst h
+    exact poly_object_relabel_energy_of_labels x _ s hs hinj hfresh
+  · simp at h
+
 end C15
